@@ -276,7 +276,8 @@ End Need.
 
 (* ------------------------------------------------------------------ schema side conditions of the round trip *)
 (* field names: identifiers ([A-Za-z0-9_], as the schema grammar gives them), pairwise different in a table; the table's
-   data area stays below the builder's 64 KiB limit whatever subset of fields is present (15 bytes per field) *)
+   data area stays below the builder's 64 KiB limit whatever subset of fields is present (15 bytes per field); scalar
+   defaults are values of their type and scalars are not `required` *)
 Definition ident_char (x : Z) : bool :=
   (48 <=? x) && (x <=? 57) || (65 <=? x) && (x <=? 90) || (97 <=? x) && (x <=? 122) || (x =? 95).
 Definition name_okb (nm : list Z) : bool := negb (lenZ nm =? 0) && forallb ident_char nm.
@@ -286,7 +287,7 @@ Definition rt_table_okb (flds : list pfield) : bool :=
   forallb (fun fd => name_okb (pf_name fd)) flds && names_distinct (map pf_name flds) &&
   (15 * Z.of_nat (length flds) + 4 <=? 65535) &&
   forallb (fun fd => match pf_kind fd with
-                     | PScalar ty d => (lenZ d =? st_size ty) && forallb byte_okb d
+                     | PScalar ty d => scalar_okb ty d && negb (pf_req fd)    (* the default is a value of the type; `required` is for non-scalars *)
                      | _ => true end) flds.
 Definition rt_schema_okb (PS : pschema) : bool := forallb rt_table_okb PS.
 Definition enums_okb (E : penums) : bool :=
